@@ -22,6 +22,7 @@ func runC06(c *Ctx) {
 	c.ruleR06a("R06a error-propagation")
 	c.ruleR06b("R06b positions-not-fabricated")
 	c.ruleR06c("R06c max-selection")
+	c.ruleR06d("R06d line-table-complete")
 }
 
 func isErrorType(t types.Type) bool { return ssax.NamedIs(t, "parsley", "Error") }
